@@ -337,6 +337,12 @@ SCHEMAS = [
     Enum("ETag", [Variant(0, "A", tag=3), Variant(1, "B", [F(0, "u8", tag=4)], "tuple", tag=5)], tag=6, note="tags at enum, variant and field level"),
     Struct("WithEnum", [F(0, "u8"), F(1, "u8", nested="EPlain", opt=True), F(2, "bool")], note="enum in an optional field with a sibling after it"),
     Struct("WithIdx", [F(0, "u8", nested="EIdx", opt=True), F(1, "u8")], note="index_only enum in an optional field"),
+    Enum("EOptTag", [Variant(0, "A", [F(0, "u8", opt=True, tag=9), F(1, "u8"), F(2, "bool")], "struct"),
+                     Variant(1, "B", [F(0, "u8", opt=True, tag=300), F(1, "u8", opt=True), F(2, "bool")], "tuple")], note="tagged optional followed by two fields inside enum variants"),
+    Struct("BytesOptT", [F(0, "u8", bytes_=True, opt=True)], transparent=True, tuple_=True, note="transparent newtype over Option<[u8;2]> with the bytes codec"),
+    Struct("SkipT2", [F(0, "u8"), F(0, "u8", skip=True), F(1, "u8")], tuple_=True, note="skipped tuple position between two fields of the same type"),
+    Enum("EMixU", [Variant(0, "A", enc="map"), Variant(1, "B", [F(0, "u8")], "tuple"), Variant(2, "C")], note="unit variant with a variant-level map override (and one without)"),
+    Enum("EMapU", [Variant(0, "A", enc="array"), Variant(1, "B")], enc="map", note="map-encoded enum with a unit variant overriding to array"),
     # A 25-field map/array schema (header at the 23/24 entry boundary) was tried with a 128-byte cursor
     # and concrete mandatory fields: CBMC runs out of memory (24 GB) -> outside the solver's reach.
 ]
@@ -650,7 +656,7 @@ def td_harnesses(s, schemas):
         td2.bytes = ["0xd9", "t[0]", "t[1]"] + rest
         td2.nsym, td2.nbool = td.nsym, td.nbool
         fn = td_fn("c09_wrong_tag", td2, None, s, "C09: a wrong tag is an error of the tag-mismatch class",
-                   'if let Err(e) = &r { assert!(e.is_tag_mismatch(), "wrong tag: not a tag-mismatch error") }')
+                   'if let Err(e) = &r { assert!(e.is_tag_mismatch(), "wrong tag: not a tag-mismatch error"); assert!(e.position() == Some(0), "tag mismatch reported at another position than the tag (same in every feature configuration)") }')
         fn = fn.replace("let sfx: u8 = kani::any();", f"let sfx: u8 = kani::any(); let t: [u8; 2] = kani::any(); kani::assume(u16::from_be_bytes(t) as u64 != {s.tag});")
         out.append(fn)
         td3 = TD(random.Random(1), "p", "all", "def")
